@@ -385,7 +385,7 @@ func cutInsideFrame(c *Ctx, who string) {
 			responseWritten(ctx, sc)
 			var got []byte
 			var rerr error
-			msg, pan := safely(func() { got, rerr = ioutil.ReadAll(conn) })
+			msg, pan := safely(func() { got, rerr = readAllBounded(conn, 20000) })
 			whole, want := 0, []byte{}
 			for k, e := range ends {
 				if e <= cut {
@@ -535,7 +535,11 @@ func timeoutInsideFrame(c *Ctx, who string) {
 		bufSize := []int{1, 333, 4096}[i%3]
 		pmsg, pan := safely(func() {
 			buf := make([]byte, bufSize)
-			for len(got) < len(msg) && !sc.blocked {
+			for iter := 0; len(got) < len(msg) && !sc.blocked; iter++ {
+				if iter > 20000 {
+					rerr = fmt.Errorf("no progress after %d reads", iter)
+					return
+				}
 				n, err := conn.Read(buf)
 				got = append(got, buf[:n]...)
 				if err != nil {
@@ -556,4 +560,22 @@ func timeoutInsideFrame(c *Ctx, who string) {
 		}
 		c.Count(id, timeouts > 0, "stream:timeout-inside-frame")
 	}
+}
+
+// readAllBounded is ioutil.ReadAll with a limit on the number of reads: code under test that returns (0, nil) or the same
+// error for ever must not hang the check.
+func readAllBounded(r io.Reader, maxReads int) ([]byte, error) {
+	var out []byte
+	buf := make([]byte, 512)
+	for i := 0; i < maxReads; i++ {
+		n, err := r.Read(buf)
+		out = append(out, buf[:n]...)
+		if err == io.EOF {
+			return out, nil
+		}
+		if err != nil {
+			return out, err
+		}
+	}
+	return out, fmt.Errorf("no end of stream after %d reads", maxReads)
 }
